@@ -556,7 +556,7 @@ impl Group {
     pub fn new(name: String, vtable_defs: &str) -> Result<Self> {
         let mut vtables = vec![];
 
-        let reg = Regex::new(r"const (?P<vtbl_type>[^;]+)Vtbl.*;")?;
+        let reg = Regex::new(r"const (?P<vtbl_type>\w+)Vtbl<.*;")?;
 
         for cap in reg.captures_iter(vtable_defs) {
             vtables.push((
